@@ -749,6 +749,24 @@ func init() {
 						viol("live:database-block-stale", fmt.Sprintf("%s step %d: the database copy of block %d is not the block the node holds: %s", it.Source, step, i, firstDiff(string(a), string(b))), map[string]interface{}{"source": it.Source, "step": step})
 					}
 				}
+				// rounds (created events with their fame, received events) are updated in place too
+				for r := 0; r <= bs.LastRound(); r++ {
+					cr, err := bs.VInmem().GetRound(r)
+					if err != nil {
+						continue
+					}
+					dr, err := bs.VDbGetRound(r)
+					res.Reads++
+					if err != nil {
+						viol("live:round-not-in-database", fmt.Sprintf("%s step %d: round %d is in the node's cache but not in its database: %v", it.Source, step, r, err), map[string]interface{}{"source": it.Source, "step": step})
+						continue
+					}
+					a, _ := json.Marshal(cr)
+					b, _ := json.Marshal(dr)
+					if string(a) != string(b) {
+						viol("live:database-round-stale", fmt.Sprintf("%s step %d: the database copy of round %d is not the round the node holds: %s", it.Source, step, r, firstDiff(string(a), string(b))), map[string]interface{}{"source": it.Source, "step": step})
+					}
+				}
 			}
 			for k, a := range sc.Seed {
 				x.Step(a)
